@@ -203,7 +203,7 @@ theorem findCoordinator_bytes {cid : Bytes} {corr : Int} {g frame : Bytes}
     · cases h
     · rename_i gb hgb
       cases h
-      rw [encodeHeader_ok hhd, writeShortAscii_some hgb]
+      rw [encodeHeader_ok hhd, writeShortText_some hgb]
       simp only [request_enc, Spec.findCoordinatorRequest, hdr, hdrKey_encode_consumermetadata_request,
         hdrVer_encode_consumermetadata_request]
 
